@@ -99,7 +99,7 @@ Theorem C12_daily_inverted_noon_as_published : forall d r x dl,
   (a_div dec 1%Qc r = Ok x ->
    parse_obs {| o_date := Some d; o_noon := JAbsent; o_daily := JGood r |} = Ok (Some (d, x))) /\
   parse_obs {| o_date := Some d; o_noon := JGood r; o_daily := dl |} = Ok (Some (d, r)).
-Proof. intros d r x dl. split; [apply RatesProps.parse_obs_daily | apply RatesProps.parse_obs_noon]. Qed.
+Proof. exact RatesProps.daily_noon. Qed.
 Check C12_daily_inverted_noon_as_published : forall d r x dl,
   (a_div dec 1%Qc r = Ok x ->
    parse_obs {| o_date := Some d; o_noon := JAbsent; o_daily := JGood r |} = Ok (Some (d, x))) /\
